@@ -620,6 +620,12 @@ func dirtyBuffer() gopacket.SerializeBuffer {
 	for i := range a {
 		a[i] = 0x55
 	}
+	// "previously held other data": also the record of the layers of an earlier packet, which serializers consult
+	// (IPv6 looks for a hop-by-hop layer already written, ...)
+	for _, t := range []gopacket.LayerType{gopacket.LayerTypePayload, layers.LayerTypeUDP, layers.LayerTypeTCP, layers.LayerTypeIPv6Destination, layers.LayerTypeIPv6HopByHop,
+		layers.LayerTypeIPv6, layers.LayerTypeIPv4, layers.LayerTypeGRE, layers.LayerTypeDot1Q, layers.LayerTypeEthernet} {
+		b.PushLayer(t)
+	}
 	b.Clear()
 	return b
 }
